@@ -111,4 +111,289 @@ theorem rangeLoop_nonempty (r : Rec) (env : Env) (set : Option SetN) (ks vs : Op
   obtain ⟨g, rfl⟩ : ∃ g, f = g + 1 := ⟨f - 1, by omega⟩
   rw [rangeLoop_cons, iterate_cons, rangeLoop_rest r env set ks vs body els ifc xs g (i + 1) (by simpa using hf)]
 
+/-! ### from the statement to the loop -/
+
+/-- a slice value (typed or `[]interface{}`, nil or not) gets a slice ranger over its elements, from index 0 -/
+theorem getRanger_slice (es : List Val) (ifc nl : Bool) : getRanger (.slice es ifc nl) = .ok (.sliceR es 0 ifc) := rfl
+
+/-- a non-nil pointer to a slice, and a slice inside an interface value, are ranged like the slice -/
+theorem getRanger_ptr_slice (t : String) (es : List Val) (ifc nl : Bool) :
+    getRanger (.ptr t (some (.slice es ifc nl))) = .ok (.sliceR es 0 ifc) := rfl
+theorem getRanger_iface_slice (es : List Val) (ifc nl : Bool) :
+    getRanger (.iface (.slice es ifc nl)) = .ok (.sliceR es 0 ifc) := rfl
+
+/-- which `Set.Left` slot receives the index: slot 0 as soon as there is a `Set` -/
+def keySlotOf (set : Option SetN) : Option Nat := if set.isSome then some 0 else none
+/-- which slot receives the value: slot 1 iff the `Set` has more than one left-hand side -/
+def valSlotOf (set : Option SetN) : Option Nat :=
+  if set.isSome && (match set with | some st => st.left.length | none => 0) > 1 then some 1 else none
+
+/-- what a range does once the ranger is a slice ranger over `es`: the else list (or nothing) when there is
+    no element, the fold over the elements otherwise -/
+def loopRes (r : Rec) (env : Env) (set : Option SetN) (body : List Stmt) (els : Option (List Stmt)) (ifc : Bool)
+    (es : List Val) : M Val :=
+  match es with
+  | [] =>
+    (match els with
+     | some l => r.execList env l
+     | none => pure .invalid)
+  | _ :: _ => iterate (iterStep r env set (keySlotOf set) (valSlotOf set) body ifc) 0 es
+
+theorem rangeCore_slice (r : Rec) (env : Env) (loc : Loc) (set : Option SetN) (v : Val) (body : List Stmt)
+    (els : Option (List Stmt)) (es : List Val) (ifc : Bool) (hv : getRanger v = .ok (.sliceR es 0 ifc))
+    (hlen : es.length < 100000) :
+    rangeCore r env loc set v body els = loopRes r env set body els ifc es := by
+  funext rt
+  have h1 : liftP (locateP loc (getRanger v)) rt = .ok (.sliceR es 0 ifc) rt := by rw [hv]; rfl
+  show (liftP (locateP loc (getRanger v)) >>= fun rg =>
+    rangeLoop r env set (keySlotOf set) (valSlotOf set) body els 100000 rg true) rt = _
+  rw [bind_ok h1]
+  cases es with
+  | nil =>
+    cases els with
+    | some l => exact Props.C05.range_empty_runs_else r env set _ _ body l 99999 0 ifc rt
+    | none => exact Props.C05.range_empty_no_else r env set _ _ body 99999 0 ifc rt
+  | cons x xs => rw [rangeLoop_nonempty r env set _ _ body els ifc true x xs 100000 0 hlen]; rfl
+
+/-- more elements than the loop counter allows and no body that returns: outside the model -/
+theorem rangeLoop_too_long (r : Rec) (env : Env) (set : Option SetN) (ks vs : Option Nat) (body : List Stmt)
+    (els : Option (List Stmt)) (st : RangerSt) (first : Bool) (rt : RT) :
+    rangeLoop r env set ks vs body els 0 st first rt = .unsupported "range too long" := rfl
+
+/-- a range as a statement: `execRange`, its value handed on -/
+theorem execStmt_range (r : Rec) (env : Env) (ins : Bool) (loc : Loc) (set : Option SetN) (e : Option Expr)
+    (body : List Stmt) (els : Option (List Stmt)) (rt : RT) :
+    execStmt r env ins (.rangeS loc set e body els) rt = stmtRes ins (execRange r env loc set e body els rt) := by
+  show (execRange r env loc set e body els >>= fun ret => pure (ret, Val.invalid, ins)) rt = _
+  rw [bind_def]
+  cases execRange r env loc set e body els rt <;> rfl
+
+/-- a list whose only statement is a range is that range -/
+theorem execListF_single_range (r : Rec) (env : Env) (loc : Loc) (set : Option SetN) (e : Option Expr)
+    (body : List Stmt) (els : Option (List Stmt)) (rt : RT) :
+    execListF r env [.rangeS loc set e body els] rt = execRange r env loc set e body els rt := by
+  simp only [execListF, execListGo, execStmt_range]
+  cases h : execRange r env loc set e body els rt <;>
+    simp [stmtRes, isReturnStmt, stmtOpensLet, isValid_ite] <;> rfl
+
+theorem execList_single_range (n : Nat) (env : Env) (loc : Loc) (set : Option SetN) (e : Option Expr)
+    (body : List Stmt) (els : Option (List Stmt)) (rt : RT) :
+    (recAt (n + 1)).execList env [.rangeS loc set e body els] rt = execRange (recAt n) env loc set e body els rt :=
+  execListF_single_range (recAt n) env loc set e body els rt
+
+/-- zero-variable form: evaluate the expression, then the loop; no scope -/
+theorem execRange_none (r : Rec) (env : Env) (loc : Loc) (ex : Expr) (body : List Stmt) (els : Option (List Stmt))
+    (rt rt1 : RT) (v : Val) (es : List Val) (ifc : Bool) (he : r.evalExpr env ex rt = .ok v rt1)
+    (hv : getRanger v = .ok (.sliceR es 0 ifc)) (hlen : es.length < 100000) :
+    execRange r env loc none (some ex) body els rt = loopRes r env none body els ifc es rt1 := by
+  show (r.evalExpr env ex >>= fun v => rangeCore r env loc none v body els) rt = _
+  rw [bind_ok he, rangeCore_slice r env loc none v body els es ifc hv hlen]
+
+/-- forms with variables: the right-hand side is evaluated first; `:=` opens ONE scope around the whole
+    loop and releases it after it, `=` opens none -/
+theorem execRange_set (r : Rec) (env : Env) (loc : Loc) (st : SetN) (e : Option Expr) (rgt : Expr) (more : List Expr)
+    (body : List Stmt) (els : Option (List Stmt)) (rt rt1 : RT) (v : Val) (es : List Val) (ifc : Bool)
+    (hr : st.right = rgt :: more) (he : r.evalExpr env rgt rt = .ok v rt1)
+    (hv : getRanger v = .ok (.sliceR es 0 ifc)) (hlen : es.length < 100000) :
+    execRange r env loc (some st) e body els rt =
+      (if st.isLet then withNewScopeND (loopRes r env (some st) body els ifc es) rt1
+       else loopRes r env (some st) body els ifc es rt1) := by
+  unfold execRange
+  simp only [hr]
+  rw [bind_ok he, rangeCore_slice r env loc (some st) v body els es ifc hv hlen]
+  cases st.isLet <;> rfl
+
+/-! ### the three documented forms, iteration by iteration -/
+
+/-- zero-variable form: `.` is the element (unwrapped) for the body, and is put back after it -/
+def step0 (r : Rec) (env : Env) (body : List Stmt) (ifc : Bool) (_ : Nat) (x : Val) : M Val :=
+  withCtxND (dotOf ifc x) (r.execList env body)
+
+/-- one-variable declaring form `{{range k := e}}`: the variable receives the INDEX, `.` the element -/
+def step1 (r : Rec) (env : Env) (k : Bytes) (body : List Stmt) (ifc : Bool) (i : Nat) (x : Val) : M Val := do
+  letVar k (.int i)
+  withCtxND (dotOf ifc x) (r.execList env body)
+
+/-- two-variable declaring form `{{range k, v := e}}`: `k` receives the index, `v` the ranger's value (for a
+    `[]interface{}` the Interface-kinded value; lookups unwrap it), `.` is untouched -/
+def step2 (r : Rec) (env : Env) (k v : Bytes) (body : List Stmt) (ifc : Bool) (i : Nat) (x : Val) : M Val := do
+  letVar k (.int i)
+  letVar v (elemVal ifc x)
+  r.execList env body
+
+theorem iterStep_none (r : Rec) (env : Env) (body : List Stmt) (ifc : Bool) :
+    iterStep r env none (keySlotOf none) (valSlotOf none) body ifc = step0 r env body ifc := by
+  funext i x rt; rfl
+
+theorem iterStep_one (r : Rec) (env : Env) (st : SetN) (lk : Loc) (k : Bytes) (body : List Stmt) (ifc : Bool)
+    (hlet : st.isLet = true) (hl : st.left = [.ident lk k]) :
+    iterStep r env (some st) (keySlotOf (some st)) (valSlotOf (some st)) body ifc = step1 r env k body ifc := by
+  funext i x rt
+  simp [iterStep, keySlotOf, valSlotOf, hl, rangeBind, hlet, step1, bind_def]
+  cases letVar k (Val.int ↑i) rt <;> rfl
+
+theorem iterStep_two (r : Rec) (env : Env) (st : SetN) (lk lv : Loc) (k v : Bytes) (body : List Stmt) (ifc : Bool)
+    (hlet : st.isLet = true) (hl : st.left = [.ident lk k, .ident lv v]) :
+    iterStep r env (some st) (keySlotOf (some st)) (valSlotOf (some st)) body ifc = step2 r env k v body ifc := by
+  funext i x rt
+  simp [iterStep, keySlotOf, valSlotOf, hl, rangeBind, hlet, step2, bind_def]
+
+/-- `.` after a zero-variable iteration that finished is what it was before -/
+theorem step0_ctx (r : Rec) (env : Env) (body : List Stmt) (ifc : Bool) (i : Nat) (x a : Val) (rt rt' : RT)
+    (h : step0 r env body ifc i x rt = .ok a rt') : rt'.ctx = rt.ctx := by
+  unfold step0 withCtxND at h
+  split at h
+  · cases h; rfl
+  · rename_i hne; exact absurd h (by intro h'; exact hne _ _ h')
+
+/-- … hence after the whole fold -/
+theorem iterate_step0_ctx (r : Rec) (env : Env) (body : List Stmt) (ifc : Bool) : ∀ (xs : List Val) (i : Nat) (a : Val)
+    (rt rt' : RT), iterate (step0 r env body ifc) i xs rt = .ok a rt' → rt'.ctx = rt.ctx := by
+  intro xs
+  induction xs with
+  | nil => intro i a rt rt' h; cases h; rfl
+  | cons x xs ih =>
+    intro i a rt rt' h
+    rw [iterate_cons, bind_def] at h
+    cases h1 : step0 r env body ifc i x rt with
+    | ok b rt1 =>
+      rw [h1] at h
+      have hc := step0_ctx r env body ifc i x b rt rt1 h1
+      by_cases hb : b.isValid = true
+      · simp [hb] at h; cases h; exact hc
+      · simp [hb] at h; rw [ih (i + 1) a rt1 rt' h, hc]
+    | err e rt1 => rw [h1] at h; cases h
+    | crash m rt1 => rw [h1] at h; cases h
+    | fuel => rw [h1] at h; cases h
+    | unsupported w => rw [h1] at h; cases h
+
+/-! ### text bodies -/
+
+open JetVerif.TextOnly
+
+/-- the chunks of `n` renderings of a text-only body -/
+def repeated (n : Nat) (cs : List Chunk) : List Chunk := (List.replicate n cs).flatten
+
+theorem repeated_succ (n : Nat) (cs : List Chunk) : repeated (n + 1) cs = cs ++ repeated n cs := by
+  simp [repeated, List.replicate_succ]
+
+/-- one zero-variable iteration over a text-only body: the body's chunks are appended, `.` is put back,
+    nothing else changes -/
+theorem step0_texts (m : Nat) (env : Env) (loc : Loc) (bs : List Bytes) (ifc : Bool) (i : Nat) (x : Val) (rt : RT) :
+    step0 (recAt (m + 1)) env (bs.map (Stmt.text loc)) ifc i x rt =
+      .ok .invalid (appendTo rt rt.writer (bs.map litChunk)) := by
+  unfold step0 withCtxND
+  rw [exec_texts_body m env loc bs]
+  simp only [appendTo]
+  cases rt.writer.idx <;> rfl
+
+theorem iterate_step0_texts (m : Nat) (env : Env) (loc : Loc) (bs : List Bytes) (ifc : Bool) :
+    ∀ (xs : List Val) (i : Nat) (rt : RT),
+      iterate (step0 (recAt (m + 1)) env (bs.map (Stmt.text loc)) ifc) i xs rt =
+        .ok .invalid (appendTo rt rt.writer (repeated xs.length (bs.map litChunk))) := by
+  intro xs
+  induction xs with
+  | nil => intro i rt; simp [iterate_nil, repeated, appendTo_nil]
+  | cons x xs ih =>
+    intro i rt
+    rw [iterate_cons_ok _ i x xs rt _ (step0_texts m env loc bs ifc i x rt), ih, appendTo_writer,
+      appendTo_appendTo, List.length_cons, repeated_succ]
+
+/-- `[{{range x}}texts{{else}}texts'{{end}}]` run at fuel `m + 2` from a runtime where the identifier stands
+    for a value that ranges as a slice of `es`: the body's chunks once per element, or the else chunks -/
+theorem run_range_texts (m : Nat) (env : Env) (loc le lb : Loc) (name : Bytes) (bs : List Bytes)
+    (fin : Option (List Bytes)) (rt : RT) (v : Val) (es : List Val) (ifc : Bool)
+    (hx : lookupVal env rt name = some v) (hv : getRanger v = .ok (.sliceR es 0 ifc)) (hlen : es.length < 100000) :
+    (recAt (m + 2)).execList env
+        [.rangeS loc none (some (.ident le name)) (bs.map (Stmt.text lb)) (fin.map fun f => f.map (Stmt.text lb))] rt =
+      .ok .invalid (appendTo rt rt.writer
+        (match es with
+         | [] => (fin.getD []).map litChunk
+         | _ :: _ => repeated es.length (bs.map litChunk))) := by
+  have he : (recAt (m + 1)).evalExpr env (.ident le name) rt = .ok v rt := by
+    rw [evalExpr_ident, hx]
+  rw [execList_single_range, execRange_none (recAt (m + 1)) env loc _ _ _ rt rt v es ifc he hv hlen]
+  cases es with
+  | nil =>
+    cases fin with
+    | none => simp [loopRes, appendTo_nil]; rfl
+    | some f => simpa [loopRes] using exec_texts_body m env lb f rt
+  | cons x xs =>
+    simp only [loopRes, iterStep_none]
+    exact iterate_step0_texts m env lb bs ifc (x :: xs) 0 rt
+
+/-! ### the erasure of the parser's tree for a range node
+
+  `IfChain.eraseS` restates `Driver/ExecSrc.lean`'s `stmtA` (a `partial def`) for text nodes and `if` nodes
+  only; it answers `none` on `.branch false …`.  Its `.branch` case with `isIf = false` is restated here:
+  the node at line `l` becomes `.rangeS ⟨path, l⟩ set' e' body' els'` with `set'` = `setA` of the `Set`
+  (`eraseSet`: position, `isLet`, `lookup`, both sides through `exprA`), `e'` = `optA` of the expression,
+  and body / else list through `list.mapM stmtA` / `optListA` (here `IfChain.eraseL` / `eraseO`, i.e. bodies
+  made of text and `if` nodes; expressions are the leaf expressions of `IfChain.eraseE`). -/
+
+def eraseEs (path : Bytes) : List Parse.PExpr → Option (List Expr)
+  | [] => some []
+  | e :: rest =>
+    match eraseE path e, eraseEs path rest with
+    | some a, some b => some (a :: b)
+    | _, _ => none
+
+/-- `setA` -/
+def eraseSet (path : Bytes) (s : Parse.PSet) : Option SetN :=
+  match eraseEs path s.left, eraseEs path s.right with
+  | some l, some r => some { loc := ⟨path, s.line⟩, isLet := s.isLet, lookup := s.lookup, left := l, right := r }
+  | _, _ => none
+
+/-- `stmtA` on a range node (everything else: `IfChain.eraseS`) -/
+def eraseR (path : Bytes) : Parse.PStmt → Option Stmt
+  | .branch false l set e _ list els =>
+    let set' : Option (Option SetN) := match set with
+      | none => some none
+      | some x => (eraseSet path x).map some
+    let e' : Option (Option Expr) := match e with
+      | none => some none
+      | some x => (eraseE path x).map some
+    match set', e', eraseL path list, eraseO path els with
+    | some s, some ex, some body, some el => some (.rangeS ⟨path, l⟩ s ex body el)
+    | _, _, _, _ => none
+  | s => eraseS path s
+
+open JetVerif.StmtGrammar JetVerif.Props.C05P
+
+/-- the evaluator's statement for `{{range x}}texts[{{else}}texts']{{end}}`, every node on line 1 of `path` -/
+def rangeStmt0 (path : Bytes) (name : Bytes) (bs : List Bytes) (fin : Option (List Bytes)) : Stmt :=
+  .rangeS ⟨path, 1⟩ none (some (.ident ⟨path, 1⟩ name)) (bs.map (Stmt.text ⟨path, 1⟩)) (eFin path fin)
+
+/-- the evaluator's statement for `{{range k, v := x}}texts[{{else}}texts']{{end}}` -/
+def rangeStmt2 (path : Bytes) (k v name : Bytes) (bs : List Bytes) (fin : Option (List Bytes)) : Stmt :=
+  .rangeS ⟨path, 1⟩
+    (some { loc := ⟨path, 1⟩, isLet := true, lookup := false,
+            left := [.ident ⟨path, 1⟩ k, .ident ⟨path, 1⟩ v], right := [.ident ⟨path, 1⟩ name] })
+    none (bs.map (Stmt.text ⟨path, 1⟩)) (eFin path fin)
+
+/-- the tree C05P promises for the zero-variable spelling erases to `rangeStmt0` -/
+theorem eraseR_range0 (path name : Bytes) (bs : List Bytes) (fin : Option (List Bytes)) :
+    eraseR path (.branch false 1 (setV .none (ExprGrammar.tree7 (atom7 name))) (exprV .none (ExprGrammar.tree7 (atom7 name))) 1
+      (treeL (textsL bs)) ((fin.map textsL).map fun l => (1, treeL l))) = some (rangeStmt0 path name bs fin) := by
+  cases fin <;>
+    simp [eraseR, setV, exprV, tree7_atom7, eraseE, treeL_textsL, eraseL_texts, eraseO, rangeStmt0, eFin]
+
+/-- … and for the two-variable spelling to `rangeStmt2` -/
+theorem eraseR_range2 (path k v name : Bytes) (bs : List Bytes) (fin : Option (List Bytes)) :
+    eraseR path (.branch false 1 (setV (.two k v) (ExprGrammar.tree7 (atom7 name))) (exprV (.two k v) (ExprGrammar.tree7 (atom7 name))) 1
+      (treeL (textsL bs)) ((fin.map textsL).map fun l => (1, treeL l))) = some (rangeStmt2 path k v name bs fin) := by
+  cases fin <;>
+    simp [eraseR, setV, exprV, tree7_atom7, eraseE, eraseEs, eraseSet, treeL_textsL, eraseL_texts, eraseO, rangeStmt2, eFin]
+
+/-- `rangeStmt0` as the root of a template, from the runtime `Execute` sets up -/
+theorem run_rangeStmt0_init (m : Nat) (env : Env) (path name : Bytes) (bs : List Bytes) (fin : Option (List Bytes))
+    (t : Tmpl) (vars : List (Bytes × Val)) (data : Val) (v : Val) (es : List Val) (ifc : Bool)
+    (hx : identVal env vars data name = some v) (hv : getRanger v = .ok (.sliceR es 0 ifc)) (hlen : es.length < 100000) :
+    (recAt (m + 2)).execList env [rangeStmt0 path name bs fin] (initRT t vars data) =
+      .ok .invalid (appendTo (initRT t vars data) (initRT t vars data).writer
+        (match es with
+         | [] => (fin.getD []).map litChunk
+         | _ :: _ => repeated es.length (bs.map litChunk))) :=
+  run_range_texts m env _ _ _ name bs fin _ v es ifc (by rw [lookupVal_initRT, hx]) hv hlen
+
 end JetVerif.RangeChain
